@@ -328,3 +328,80 @@ def _veq(u, v, tol=1e-9):
     if isinstance(u, (int, float)) and isinstance(v, (int, float)):
         return u == v or abs(u - v) <= tol * max(1.0, abs(u), abs(v))
     return u == v
+
+
+# ---------------------------------------------------------------------------- reference examples as an oracle
+import re  # noqa: E402
+
+_BOUND = r'(unbounded\s+preceding|unbounded\s+following|current\s+data\s+point|-?\d+\s+preceding|-?\d+\s+following)'
+_OVER = re.compile(r'^\s*(?:partition\s+by\s+(?P<part>[A-Za-z_0-9 ,]+?))?\s*(?:order\s+by\s+(?P<order>[A-Za-z_0-9 ,]+?))?\s*'
+                   r'(?:(?P<mode>data\s+points|range)\s+between\s+(?P<b1>' + _BOUND.strip('()') + r')\s+and\s+(?P<b2>' + _BOUND.strip('()') + r'))?\s*$')
+_FUNCS = '|'.join(AGG + ['lag', 'lead', 'ratio_to_report'])
+_EACH = re.compile(r'^DS_r\s*(?::=|<-)\s*(?P<fn>' + _FUNCS + r')\s*\(\s*DS_1\s*(?:,\s*(?P<off>\d+)\s*(?:,\s*(?P<dflt>-?[0-9.]+|"[^"]*"))?\s*)?over\s*\((?P<over>.*)\)\s*\)\s*;?\s*$')
+_CALC = re.compile(r'^DS_r\s*(?::=|<-)\s*DS_1\s*\[\s*calc\s+(?P<out>\w+)\s*:=\s*(?P<fn>' + _FUNCS + r')\s*\(\s*(?P<arg>\w+)\s*(?:,\s*(?P<off>\d+)\s*(?:,\s*(?P<dflt>-?[0-9.]+|"[^"]*"))?\s*)?over\s*\((?P<over>.*)\)\s*\)\s*\]\s*;?\s*$')
+_RANK = re.compile(r'^DS_r\s*(?::=|<-)\s*DS_1\s*\[\s*calc\s+(?P<out>\w+)\s*:=\s*rank\s*\(\s*over\s*\((?P<over>.*)\)\s*\)\s*\]\s*;?\s*$')
+
+
+def _bound(s):
+    s = ' '.join(s.split())
+    if s == 'unbounded preceding':
+        return float('-inf')
+    if s == 'unbounded following':
+        return float('inf')
+    if s.startswith('current'):
+        return 0
+    k, side = s.split()
+    return -int(k) if side == 'preceding' else int(k)
+
+
+def parse_simple(vtl):
+    """the simple analytic forms (one invocation at dataset level / one calc item) -> model spec, or None."""
+    t = ' '.join(vtl.split())
+    m = _EACH.match(t) or _CALC.match(t) or _RANK.match(t)
+    if not m:
+        return None
+    g = m.groupdict()
+    o = _OVER.match(g['over'])
+    if not o:
+        return None
+    part = [p.strip() for p in (o.group('part') or '').split(',') if p.strip()]
+    order = []
+    for it in (o.group('order') or '').split(','):
+        it = it.split()
+        if not it:
+            continue
+        if len(it) > 2 or (len(it) == 2 and it[1] not in ('asc', 'desc')):
+            return None
+        order.append((it[0], it[1] if len(it) == 2 else 'asc'))
+    frame = '_'
+    if o.group('mode'):
+        b1, b2 = _bound(o.group('b1')), _bound(o.group('b2'))
+        lo, hi = min(b1, b2), max(b1, b2)       # the engine's AST constructor orders the two bounds
+        if lo == float('inf') or hi == float('-inf'):
+            return None
+        f = lambda b: 'u' if b in (float('inf'), float('-inf')) else str(int(b))  # noqa: E731
+        frame = '(%s %s %s)' % ('rows' if o.group('mode').startswith('data') else 'range', f(lo), f(hi))
+    fn = g.get('fn') or 'rank'
+    if fn in ('lag', 'lead'):
+        d = g.get('dflt')
+        if d is None:
+            dv = None
+        elif d.startswith('"'):
+            dv = d[1:-1]
+        elif '.' in d:
+            dv = Fraction(d)
+        else:
+            dv = int(d)
+        fn_sx = '(%s %s %s)' % (fn, g.get('off') or '1', enc_value(dv))
+    elif fn == 'rank':
+        fn_sx = 'rank'
+    elif fn == 'ratio_to_report':
+        fn_sx = 'ratio'
+    else:
+        fn_sx = '(agg %s)' % fn
+    if 'out' in g and g['out']:
+        target = '(calc %s %s)' % (nsx(g['out']), '(col %s)' % nsx(g['arg']) if g.get('arg') else '(const n)')
+    else:
+        target = 'each'
+    return '(spec %s (part %s) (order %s) %s %s)' % (fn_sx, ' '.join(nsx(p) for p in part),
+                                                     ' '.join('(%s %s)' % (nsx(c), dd) for c, dd in order), frame, target)
